@@ -291,6 +291,112 @@ def _script_pairs(kind, N):
     return m, _script(kind, m) + [(i, i + 1) for i in range(tail, N - 1)]
 
 
+# ------------------------------------------------------------------ TLA+ model of the structure, checked by TLC, replayed on the code
+
+
+def check_dsu_tlc(case, R):
+    """Model + conformance.  tla/DSU.tla (disjoint-set forest with full path compression and union by rank, written from the
+    textbook; history variable `blocks` = the partition generated by the unions performed) is checked by TLC for N elements:
+    on EVERY reachable model state the invariant 'same representative <=> connected by the unions so far' holds.  TLC dumps
+    its complete labelled state graph; every transition of it is then replayed against the real DisjointSetUnion: the
+    implementation is driven to the source state along a shortest model path from the initial state, the transition's
+    operation is executed, and what the implementation lets a user OBSERVE (is_same_set for every pair, find_parent of every
+    element, the operation's return value) must be what the model's target state says.  Comparing observations, not the
+    private arrays, keeps the check sound for implementations that organise their forest differently; agreement of the
+    private arrays with the model is counted as a diagnostic."""
+    from collections import deque
+
+    from mc import tlc
+    from swcgeom.utils import DisjointSetUnion
+
+    n = int(case[1])
+    R.state("tlc", n)
+    g = tlc.run("DSU", {"N": n}, ["TypeOK", "Inv", "RankBound"])
+    if not g["ok"]:
+        raise RuntimeError("harness: TLC reports an error in the MODEL tla/DSU.tla (not in the code under test):\n" + g["stdout"][-2000:])
+    states, edges = g["states"], g["edges"]
+    if len(states) != g["distinct"] or len(g["init"]) != 1:
+        raise RuntimeError(f"harness: graph dump has {len(states)} states, TLC reports {g['distinct']} distinct; initial states {g['init']}")
+    out_edges = {}
+    for src, act, args, dst in edges:
+        out_edges.setdefault(src, []).append((act, args, dst))
+    # shortest model path to every state
+    path = {g["init"][0]: ()}
+    dq = deque(g["init"])
+    while dq:
+        u = dq.popleft()
+        for act, args, v in out_edges.get(u, ()):
+            if v not in path:
+                path[v] = path[u] + ((act, args),)
+                dq.append(v)
+    if len(path) != len(states):
+        raise RuntimeError("harness: some dumped states are not reachable in the dumped graph")
+
+    def apply(d, act, args):
+        a = args[0] - 1
+        b = args[1] - 1 if len(args) > 1 else None
+        if act == "Union":
+            return d.union_sets(a, b)
+        if act == "Find":
+            return d.find_parent(a)
+        return d.is_same_set(a, b)
+
+    def blocks_of(sid):
+        return {x - 1: blk for blk in tlc.set_of_sets(states[sid]["blocks"]) for x in blk}
+
+    def observe(d):
+        """Partition the implementation reports: is_same_set on copies (asking must not be needed to keep the answer right)."""
+        rel = []
+        for a in range(n):
+            row = []
+            for b in range(n):
+                e = _clone(d)
+                row.append(bool(e.is_same_set(a, b)))
+            rel.append(row)
+        return rel
+
+    strong = 0
+    for sid in states:
+        R.state("tlc-state", sid)
+        for act, args, dst in out_edges.get(sid, ()):
+            ok, d = R.impl("DisjointSetUnion", DisjointSetUnion, n)
+            if not ok:
+                return
+            try:
+                for pa, pargs in path[sid]:
+                    apply(d, pa, pargs)
+                ret = apply(d, act, args)
+            except BaseException as x:  # noqa: BLE001
+                R.fail("dsu:tlc:raises", f"n={n}: model path {path[sid]} then {act}{args}: {type(x).__name__}: {x}", f"dsu:tlc-conformance:raises:{act}")
+                continue
+            R.trans(len(path[sid]) + 1)
+            want = blocks_of(dst)
+            rel = observe(d)
+            bad = [(a, b) for a in range(n) for b in range(n) if rel[a][b] != (want[a] == want[b])]
+            ctx = lambda: (f"n={n}: operations {[(p, tuple(x - 1 for x in q)) for p, q in path[sid] + ((act, args),)]} (0-based): model state "  # noqa: E731
+                           f"{states[dst]}")
+            R.check(not bad, "dsu:tlc-conformance", lambda: ctx() + f"; implementation answers is_same_set differently for pairs {bad[:6]}",
+                    "dsu:tlc-conformance:is_same_set")
+            if act == "Same":
+                src_blocks = blocks_of(sid)
+                R.check(bool(ret) == (src_blocks[args[0] - 1] == src_blocks[args[1] - 1]), "dsu:tlc-conformance", lambda: ctx() + f"; is_same_set returned {ret!r}",
+                        "dsu:tlc-conformance:return:is_same_set")
+            elif act == "Find":
+                R.check(isinstance(ret, (int, np.integer)) and 0 <= ret < n and want[int(ret)] == want[args[0] - 1], "dsu:tlc-conformance",
+                        lambda: ctx() + f"; find_parent returned {ret!r}, not an element of the block", "dsu:tlc-conformance:return:find_parent")
+            # diagnostic only: do the private arrays coincide with the model's forest?
+            try:
+                if [x + 1 for x in d.element_parent] == tlc.seq_of_ints(states[dst]["parent"]) and list(d.rank) == tlc.seq_of_ints(states[dst]["rank"]):
+                    strong += 1
+            except Exception:  # noqa: BLE001
+                pass
+    R.note("tlc-distinct-states", g["distinct"])
+    R.note("tlc-states-generated", g["generated"])
+    R.note("tlc-transitions-replayed", len(edges))
+    R.note("tlc-transitions-with-identical-private-arrays", strong)
+    R.outcome(n, g["distinct"], len(edges))
+
+
 def check_dsu_script(case, R):
     from swcgeom.utils import DisjointSetUnion
 
@@ -946,6 +1052,7 @@ def _acyclic_tables(n):
 def spaces(tier, seed):
     quick = tier == "quick"
     dsu_n = 6 if quick else 7
+    tlc_n = 6 if quick else 7
     pt_n = 5 if quick else 6
     edit_n = 4 if quick else 5
     forest_n = 5 if quick else 6
@@ -1012,6 +1119,9 @@ def spaces(tier, seed):
     return [
         Space.of("dsu-graph", gen_dsu, check_dsu_graph, bounds={"elements_max": dsu_n, "operations": "union_sets(a,b) all ordered pairs, find_parent(a), is_same_set(a,b)",
                                                                  "depth": "unbounded (BFS to fixpoint)"}, case_timeout=3000.0),
+        Space.of("dsu-tlc-model-conformance", lambda: [("tlc", k) for k in range(2, tlc_n + 1)], check_dsu_tlc, case_timeout=3000.0,
+                 bounds={"model": "tla/DSU.tla (TLC 1.8.0: invariants TypeOK, Inv, RankBound on every reachable state)", "elements": list(range(2, tlc_n + 1)),
+                         "replay": "every transition of TLC's dumped state graph, implementation driven along a shortest model path, observations compared"}),
         Space.of("dsu-instances", gen_instances, check_dsu_instances,
                  bounds={"instances": 2, "sizes": [[3, 3], [2, 3], [3, 2]], "alphabet": "new(k), union_sets on instance k (all ordered pairs)",
                          "history_length": {"(3,3)": hist_len, "others": 3}}),
